@@ -744,6 +744,34 @@ func StmtHoles(depth int, yield func(name string, s S)) {
 	})
 }
 
+// QueryTails yields every clause option of SELECT (each ends in a different clause form) as the query of every host
+// that continues after the query: view options, materialised-view data options, an upsert clause, the closing
+// parenthesis of a CTE body / derived table / IN sub-query.  What follows a query must be left to the host whatever
+// the query's last clause is.
+func QueryTails(yield func(name string, s S)) {
+	seen := map[string]bool{}
+	ClauseOptions(func(name string, q S) {
+		if q.Kind != "select" || q.N == nil || len(q.Toks) == 0 || q.Toks[0].S != "SELECT" {
+			return
+		}
+		if sql := q.SQL(); seen[sql] {
+			return
+		} else {
+			seen[sql] = true
+		}
+		for _, wo := range []string{"CHECK OPTION", "CASCADED CHECK OPTION", "LOCAL CHECK OPTION"} {
+			yield("view-option:"+name, CreateView{Name: "v1", Query: q, WithOption: wo}.Build())
+		}
+		yield("matview-data:"+name, CreateMatView{Name: "v1", Query: q, WithData: "WITH DATA"}.Build())
+		yield("matview-no-data:"+name, CreateMatView{Name: "v1", Query: q, WithData: "WITH NO DATA"}.Build())
+		q2 := q
+		yield("insert-select-upsert:"+name, Ins{Table: "t0", Cols: []string{"c1"}, Query: &q2, OnConflict: &OnConflict{DoNothing: true}}.Build())
+		yield("cte-body:"+name, Sel{With: &With{CTEs: []CTE{{Name: "w5", Body: q}}}, Items: []SelItem{{X: Star()}}, From: []TableRef{{Name: "w5"}}}.Build())
+		yield("derived:"+name, Sel{Items: []SelItem{{X: Star()}}, From: []TableRef{{Sub: &q2, Alias: "a5", AsKw: true}}, Where: xp(Bin("=", Col("c0"), Int("1")))}.Build())
+		yield("in-subquery:"+name, Sel{Items: []SelItem{{X: Col("c0")}}, From: []TableRef{{Name: "t0"}}, Where: xp(InSub(Col("c0"), false, q)), OrderBy: []OrderItem{{X: Col("c0")}}}.Build())
+	})
+}
+
 // DMLCases yields clause subsets of INSERT / UPDATE / DELETE / MERGE.
 func DMLCases(yield func(name string, s S)) {
 	with := &With{CTEs: []CTE{{Name: "w1", Body: simpleSel("t9")}}}
@@ -861,6 +889,7 @@ func All(thorough bool, yield func(name string, s S)) {
 	Shapes2(func(x X) { yield("shape2/where", selWhere(x)); yield("shape2/item", selItem(x)) })
 	SelectClauseSubsets(func(m int, s S) { yield("subsets/select", s) })
 	StmtHoles(1, func(n string, s S) { yield("nest/"+n, s) })
+	QueryTails(func(n string, s S) { yield("tail/"+n, s) })
 	HoleShapes(func(h string, s S) { yield("holeshape/"+h, s) })
 	ShapesN(3, func(x X) { yield("shape3/where", selWhere(x)) })
 	if thorough {
